@@ -26,6 +26,8 @@ def generate(seed, stratum, tier):
   rng = random.Random(seed)
   nobj = rng.choice([1, 1, 2])
   objs = aw.default_objects(nobj)
+  for o in objs:
+    o['spied'] = rng.random() < 0.6          # states with and without the spy decorator
   c0 = [['start', i] for i in range(nobj)]
   kinds = {}
   for i in range(nobj):
